@@ -429,7 +429,7 @@ fn path_len<SP: StateSpace>(sp: &SP, p: &[SP::StateType]) -> f64 {
     p.windows(2).map(|w| sp.distance(&w[0], &w[1])).sum()
 }
 
-fn exec_sets<SP>(ctx: &mut Ctx, sets: Vec<(String, SP, Vec<Scn<SP::StateType>>)>)
+fn exec_sets<SP>(ctx: &mut Ctx, sets: Vec<(String, SP, Vec<Scn<SP::StateType>>)>, alias: Option<fn(&SP::StateType) -> SP::StateType>)
 where
     SP: StateSpace + Clone + 'static,
     SP::StateType: State + Clone + Bits,
@@ -497,8 +497,13 @@ where
                                            radius: 0.5 * params.radius, build_ticks: params.build_ticks, seed: params.seed };
                     let calls: Vec<Call> = if kind == Kind::Prm {
                         vec![Call::Setup(0), Call::SetParams(params.clone()), Call::Construct, Call::Solve(5), Call::Construct, Call::Solve(5)]
+                    } else if kind == Kind::Star && si % 2 == 0 {
+                        // anytime use: several solves on one tree (equal iteration counts on purpose), then the search
+                        // radius is set to zero - from there on no node has neighbours: nearest parent, no rewiring
+                        vec![Call::Setup(0), Call::SetParams(params.clone()), Call::Solve(iters), Call::Solve(iters / 4), Call::Solve(iters / 4),
+                             Call::SetParams(Params { radius: 0.0, ..params.clone() }), Call::Solve(iters / 4)]
                     } else {
-                        vec![Call::Setup(0), Call::SetParams(params.clone()), Call::Solve(iters), Call::Solve(iters / 4)]
+                        vec![Call::Setup(0), Call::SetParams(params.clone()), Call::Solve(iters), Call::Solve(iters / 4), Call::Solve(iters / 4), Call::Solve(iters / 4)]
                     };
                     let cfg = RunCfg::default();
                     let recs = run_history(kind, &params0, space.clone(), &[mk_problem()], &calls, &cfg);
@@ -561,11 +566,24 @@ where
                     if kind == Kind::Prm {
                         if let Some(Snapshot::Roadmap(rm)) = recs.get(2).map(|r| r.snap.clone()) {
                             if let Some((m0, _)) = rm.first() {
+                                // the start: another representation of the milestone where the space has one (distance
+                                // exactly 0, different bits), else the milestone moved by 1e-13 of the way to the goal.
+                                // With an alias the goal is a tiny ball around the milestone itself, so that the
+                                // milestone is the first (and last) roadmap node of the answer.
                                 let mut s2 = m0.clone();
-                                space.interpolate(m0, &sc.goal, 1e-13, &mut s2);
+                                let (gc2c, gr2) = match alias {
+                                    Some(f) => {
+                                        s2 = f(m0);
+                                        (m0.clone(), 1e-6)
+                                    }
+                                    None => {
+                                        space.interpolate(m0, &sc.goal, 1e-13, &mut s2);
+                                        (sc.goal.clone(), sc.goal_r)
+                                    }
+                                };
                                 let p2 = Problem {
                                     starts: vec![s2.clone()],
-                                    goal: Rc::new(BallGoal { space: space.clone(), center: sc.goal.clone(), r: sc.goal_r }) as Rc<dyn HGoal<SP::StateType>>,
+                                    goal: Rc::new(BallGoal { space: space.clone(), center: gc2c.clone(), r: gr2 }) as Rc<dyn HGoal<SP::StateType>>,
                                     checker: {
                                         let cl = cl.clone();
                                         Rc::new(move |s: &SP::StateType| cl(s) > 0.0)
@@ -576,9 +594,9 @@ where
                                 let calls2 = vec![Call::Setup(0), Call::SetParams(params.clone()), Call::Construct, Call::Solve(5), Call::SetPd(1), Call::Solve(5)];
                                 let recs4 = run_history(kind, &params0, space.clone(), &[mk_problem(), p2], &calls2, &cfg);
                                 let gsp2 = space.clone();
-                                let gc2 = sc.goal.clone();
+                                let gc2 = gc2c.clone();
                                 let mut pinfo2 = pinfo;
-                                pinfo2.push(ProblemInfo { start: Some(s2.clone()), starts: vec![s2], goal_sat: Box::new(move |s: &SP::StateType| gsp2.distance(s, &gc2) <= gr), feas: 2 });
+                                pinfo2.push(ProblemInfo { start: Some(s2.clone()), starts: vec![s2], goal_sat: Box::new(move |s: &SP::StateType| gsp2.distance(s, &gc2) <= gr2), feas: 2 });
                                 let mut an2 = Annot::new(&geom, kind, params0.clone());
                                 an2.c04_precondition = an.c04_precondition;
                                 an2.reset(run, desc.clone());
@@ -885,6 +903,73 @@ fn parameter_probe(ctx: &mut Ctx) {
     }
 }
 
+/// PRM, `set_problem_definition` with a problem on a FINER space (same bounds, 50 times finer resolution):
+/// the follow-up query's start connections must be checked at the resolution of the space now installed.
+fn refine_probe(ctx: &mut Ctx) {
+    let space_a = RealVectorStateSpace::new(2, Some(vec![(0.0, 10.0), (0.0, 10.0)])).unwrap();
+    let mut space_b = space_a.clone();
+    space_b.set_longest_valid_segment_fraction(0.0002);
+    let cl: Rc<dyn Fn(&RealVectorState) -> f64> = Rc::new(|_s| 1.0);
+    let kind = Kind::Prm;
+    ctx.run += 1;
+    let run = ctx.run;
+    let desc = json!({"space": "rv2-refine", "world": "free", "planner": kind.name(), "probe": "set_problem_definition with a finer space"});
+    if ctx.list {
+        println!("{}", json!({"run": run, "desc": desc}));
+        return;
+    }
+    if let Some(o) = ctx.only {
+        if o != run {
+            return;
+        }
+    }
+    if ctx.skip.contains(&run) {
+        return;
+    }
+    if let Some(pf) = &ctx.progress {
+        std::fs::write(pf, format!("{}", run)).ok();
+    }
+    let params = Params { maxd: 1.0, bias: 0.1, radius: 2.0, build_ticks: 250, seed: Some(ctx.seed * 41 + run as u64) };
+    let mk = |sp: &RealVectorStateSpace, st: [f64; 2], g: [f64; 2], key: usize| {
+        let cl = cl.clone();
+        Problem {
+            starts: vec![rv(&st)],
+            goal: Rc::new(BallGoal { space: sp.clone(), center: rv(&g), r: 1.2 }) as Rc<dyn HGoal<RealVectorState>>,
+            checker: Rc::new(move |s: &RealVectorState| cl(s) > 0.0) as Rc<dyn Fn(&RealVectorState) -> bool>,
+            pd_key: Some(key),
+            vc_key: Some(0),
+        }
+    };
+    let problems = vec![mk(&space_a, [1.0, 1.0], [9.0, 9.0], 0), mk(&space_b, [1.5, 5.0], [9.0, 5.0], 1)];
+    let calls = vec![Call::Setup(0), Call::Construct, Call::Solve(5), Call::SetPd(1), Call::Solve(5)];
+    let cfg = RunCfg::default();
+    let recs = run_history_spaces(kind, &params, &[space_a.clone(), space_b.clone()], &problems, &calls, &cfg, &|_, _| {});
+    let geoms = [
+        RealGeom { space: space_a.clone(), clearance: cl.clone(), label: "rv2-refine".to_string() },
+        RealGeom { space: space_b.clone(), clearance: cl.clone(), label: "rv2-refine".to_string() },
+    ];
+    let (ga, gb) = (space_a.clone(), space_b.clone());
+    let pinfo = vec![
+        ProblemInfo { start: Some(rv(&[1.0, 1.0])), starts: vec![rv(&[1.0, 1.0])], goal_sat: Box::new(move |s: &RealVectorState| ga.distance(s, &rv(&[9.0, 9.0])) <= 1.2), feas: 1 },
+        ProblemInfo { start: Some(rv(&[1.5, 5.0])), starts: vec![rv(&[1.5, 5.0])], goal_sat: Box::new(move |s: &RealVectorState| gb.distance(s, &rv(&[9.0, 5.0])) <= 1.2), feas: 1 },
+    ];
+    let mut an = Annot::new(&geoms[0], kind, params.clone());
+    an.reset(run, desc.clone());
+    for r in &recs {
+        if let Call::SetPd(i) = r.call {
+            an.set_geom(&geoms[i]);
+        }
+        an.call(r, &pinfo);
+    }
+    let shard = ctx.nruns % ctx.outs.len();
+    for ev in &an.out {
+        writeln!(ctx.outs[shard], "{}", ev).unwrap();
+        ctx.nevents += 1;
+    }
+    ctx.nruns += 1;
+    ctx.index.push(json!({"run": run, "desc": desc}));
+}
+
 fn main() {
     let args: Vec<String> = std::env::args().collect();
     let mut outp = String::from("/dev/null");
@@ -939,16 +1024,18 @@ fn main() {
         })
         .collect();
     let mut ctx = Ctx { progress, skip, outs, run: 0, only, list, seed, tier: tier.clone(), nevents: 0, nruns: 0, index: vec![] };
-    exec_sets(&mut ctx, rv_sets(&tier));
-    exec_sets(&mut ctx, so2_sets(&tier));
-    exec_sets(&mut ctx, so3_sets(&tier));
-    exec_sets(&mut ctx, cmp_sets(&tier));
-    exec_sets(&mut ctx, se2_sets(&tier));
-    exec_sets(&mut ctx, se3_sets(&tier));
+    exec_sets(&mut ctx, rv_sets(&tier), None);
+    exec_sets(&mut ctx, so2_sets(&tier), None);
+    // (another representation of the same rotation: the negated quaternion - distance exactly 0, other bits)
+    exec_sets(&mut ctx, so3_sets(&tier), Some(|q: &SO3State| SO3State::new(-q.x, -q.y, -q.z, -q.w)));
+    exec_sets(&mut ctx, cmp_sets(&tier), None);
+    exec_sets(&mut ctx, se2_sets(&tier), None);
+    exec_sets(&mut ctx, se3_sets(&tier), Some(|s: &SE3State| { let q = s.get_rotation(); SE3State::new(s.get_x(), s.get_y(), s.get_z(), SO3State::new(-q.x, -q.y, -q.z, -q.w)) }));
     resolution_zero_probe(&mut ctx);
     resetup_probe(&mut ctx);
     shrink_probe(&mut ctx);
     parameter_probe(&mut ctx);
+    refine_probe(&mut ctx);
     for o in ctx.outs.iter_mut() {
         o.flush().unwrap();
     }
